@@ -12,6 +12,7 @@ import CC.Simd.Backends
 import CC.Drv.Blake
 import CC.Drv.Threefish
 import CC.Drv.Skein
+import CC.Drv.Conc
 open CC CC.Drv
 
 structure DS where
@@ -54,6 +55,7 @@ def step (ds : DS) (line : String) : DS × String :=
   | "skein" :: _ =>
     let (s, out) := CC.Drv.Skein.step ds.cfg ds.skein toks
     ({ ds with skein := s }, out)
+  | "conc" :: _ => (ds, CC.Drv.Conc.step ds.cfg toks)
   | _ => (ds, "bad-op")
 
 partial def loop (h : IO.FS.Stream) (out : IO.FS.Stream) (ds : DS) : IO Unit := do
